@@ -88,6 +88,17 @@ CLAIMS['C10'] = dict(
     note='Trusted: CPython ast; the hypotheses listed in the evidence (registers/system registers read in range, memory '
          'reads of size s below 2^(8s), mock hooks deliver 32-bit words); field ranges from the decode layer.')
 
+CLAIMS['C16'] = dict(
+    category='proof', design_ref='DESIGN.md section 4 (C16)',
+    technique='AST structural rules on the hub and device classes (bounded slices, first match, exact delegation, '
+              'statelessness, ownership, format table) + interval analysis of every stored value',
+    text='Structurally complete for the hub and RAM: every slice store is bounded by the device size and cut to the slice '
+         'length, loads are padded, lookup is first-match with no other state, delegation is exactly (address - beginning, '
+         'size), unmapped addresses read 0 / ignore writes, formats are little-endian of the right size, and every value '
+         'reaching the hub store is proved < 2^(8*size). The hub is stateless, so the per-operation frame gives the '
+         'all-histories clause by induction.',
+    note='Trusted: CPython ast; struct.pack length; the device invariant size == len(backing array) set in __init__.')
+
 PENDING = 'checker not armed yet in this session (under construction); nothing is claimed for it until its rules run clean'
 
 checks = []
